@@ -41,8 +41,8 @@ type violOut struct {
 type tierSize struct{ worlds, steps int }
 
 var tiers = map[string]tierSize{
-	"quick":    {6400, 2500},
-	"thorough": {64000, 4000},
+	"quick":    {4800, 2500},
+	"thorough": {48000, 4000},
 }
 
 func mergeStats(dst, src map[string]int) {
